@@ -320,7 +320,10 @@ def r7(repo, run):
         fl = [i for i, e in enumerate(p.events) if e.kind == 'call' and e.callee == 'self.builder.flatten']
         if not uses:
             raise AnalysisError('StreamNode.on_premerge_impl: stages[0] not used')
-        if not fl or fl[0] > uses[0]:
+        apps = [e for e in p.events if e.kind == 'call' and e.attr == 'append' and e.recv is not None and e.recv.text == 'self']
+        if apps and (not apps[-1].args or apps[-1].args[0].text != 'self.builder.stages[0]'):
+            verdict = ('bad', 'the carrier is refilled with %s, not with the flattened document (stages[0])' % (apps[-1].args[0].text[:50] if apps[-1].args else 'nothing'))
+        elif not fl or fl[0] > uses[0]:
             verdict = ('bad', 'stages[0] is used before the included documents were flattened (only the first included document would be merged)')
         elif p.ret is None or p.ret.text != 'self.builder.stages[0].ayns.on_premerge(%s, %s)' % (fi.params()[1], fi.params()[2]):
             verdict = verdict if verdict and verdict[0] == 'bad' else ('bad', 'the flattened document\'s own premerge result is not what the stream hands back (returns %s)' % (p.ret.text[:60] if p.ret is not None else None))
